@@ -83,6 +83,14 @@ def role_tie(chk):
         chk.cov["traces_validated_against_impl"] += len(items)
 
 
+# schedules (found by the thorough tier) on which libnice ends READY on non-mirrored pairs: known findings (known/C01.json), replayed on every tier
+KNOWN_CORPUS = [
+    ('convK1 seed,827199137 agent,0,0,0,9,10.0.0.1,10.0.0.2 agent,1,0,1,8,10.0.1.1,10.0.1.2 tie,0,3092567990855250574 tie,1,1968586803361452936 stream,0,1 stream,1,1 net,0,0.3,1,30,3 gather,0,1 gather,1,1 run,100 creds,0,1,1 creds,1,0,1 cands,0,1,1,1,0 run,20 cands,0,1,1,1,1 cands,0,1,1,1,2 run,1 run,60 cands,1,0,1,1,0 run,60 cands,1,0,1,1,2 run,5 cands,1,0,1,1,1 run,1 run,15000 digest run,6000 digest send,0,1,1,1472,191 send,0,1,1,1200,177 send,1,1,1,1472,183 run,3000 state,0,1,1 selected,0,1,1 state,1,1,1 selected,1,1,1', {"kind": "conv", "ncomp": 1, "nat": {}}),
+    ('convK2 seed,39001575 agent,0,0,1,8,10.0.0.1,10.0.0.2 agent,1,0,0,8,10.0.1.1 tie,0,1292148162765486170 tie,1,54743817980659764 stream,0,2 stream,1,2 net,0.25,0,1,30,3 gather,0,1 gather,1,1 run,100 cands,1,0,1,2,1 run,60 cands,1,0,1,2,0 run,1 cands,1,0,1,2,2 run,1 cands,0,1,1,1,1 cands,0,1,1,1,0 run,1 cands,0,1,1,1,2 run,20 creds,0,1,1 run,60 cands,1,0,1,1,0 run,60 cands,1,0,1,1,2 run,60 cands,1,0,1,1,1 run,1 creds,1,0,1 cands,0,1,1,2,0 run,60 cands,0,1,1,2,1 run,20 cands,0,1,1,2,2 run,5 run,200 run,8000 digest run,6000 digest send,1,1,1,1472,15 run,3000 state,0,1,1 selected,0,1,1 state,0,1,2 selected,0,1,2 state,1,1,1 selected,1,1,1 state,1,1,2 selected,1,1,2', {"kind": "conv", "ncomp": 2, "nat": {}}),
+    ('convK3 seed,394518260 agent,0,0,0,8,10.0.0.1 agent,1,0,1,8,10.0.1.1,10.0.1.2 stream,0,1 stream,1,1 net,0.1,0.1,5,30,3 gather,0,1 gather,1,1 run,100 creds,1,0,1 run,200 creds,0,1,1 run,20 cands,0,1,1,1,2 cands,0,1,1,1,0 cands,0,1,1,1,1 run,1 cands,1,0,1,1,0 run,60 cands,1,0,1,1,1 run,60 cands,1,0,1,1,2 run,60 run,8000 digest run,6000 digest send,0,1,1,1200,103 send,0,1,1,9000,12 run,3000 state,0,1,1 selected,0,1,1 state,1,1,1 selected,1,1,1', {"kind": "conv", "ncomp": 1, "nat": {}}),
+]
+
+
 def oracle(line, evs, meta):
     return sc.oracle_convergence(evs, meta.get("ncomp", 1), nat=meta.get("nat")) or sc.oracle_states(evs, None) or sc.oracle_checklist_sorted(evs) or sc.oracle_data(evs)
 
@@ -100,7 +108,7 @@ def run(chk):
     import c01_checklist
     c01_checklist.checklist_tie(chk)
     n = 1200 if chk.tier == "quick" else 60000
-    cases = [sc.gen_convergence(chk.rng, i) for i in range(n)]
+    cases = KNOWN_CORPUS + [sc.gen_convergence(chk.rng, i) for i in range(n)]
     sc.run_sim(chk, cases, oracle, "sim-C01")
     return chk.finish(**FINISH)
 
